@@ -758,7 +758,7 @@ public:
 	operator const char*() const {return _s;}
 	operator char*() const {return _s.data();}
 	operator const wchar_t*() { _wide = true; return _s.dataw(); }
-	operator const wchar_t*() const { _wide = true; return(const wchar_t*)(String*)&_s; }
+	operator const wchar_t*() const { _wide = true; return _s.dataw(); }
 	operator wchar_t*() { _wide = true; return(wchar_t*)(const wchar_t*)_s; }
 };
 
